@@ -165,8 +165,19 @@ def roundtrip(g, st, recs, lib, ev):
     base = dict(ev)
     base['qmax'] = max(ord(c) for r in recs for c in r.qual)
     base['reads'] = [[r.header, r.sequence, r.qual] for r in recs]      # for ./check C04 --replay
+    illu = type(st).__name__ == 'IlluminaBaseDemultiplexer'
+    texts = None
     try:
-        tagged = st.demultiplex(recs, library=lib)
+        if illu:
+            # the bulk strategy returns finished FASTQ text (asFastq(sequence, plus, qualities) inside demultiplex) and refuses a
+            # too long header there; the tags it wrote are observed through its own inherited=True form (same constructor call)
+            tagged = st.demultiplex(recs, library=lib, inherited=True)
+            try:
+                texts = st.demultiplex(recs, library=lib)
+            except ValueError:
+                texts = [None] * len(tagged)
+        else:
+            tagged = st.demultiplex(recs, library=lib)
     except g.NonMultiplexable:
         base['raised'] = 'NonMultiplexable'
         return [base]
@@ -174,7 +185,6 @@ def roundtrip(g, st, recs, lib, ev):
         base['raised'] = type(ex).__name__
         return [base]
     if not isinstance(tagged, (list, tuple)) or not tagged or isinstance(tagged[0], str):
-        # the base ILLU strategy returns finished FASTQ text; wrap it so the rest of the path is the same
         tagged = None
     from singlecellmultiomics.universalBamTagger.universalBamTagger import QueryNameFlagger
     out, segs = [], []
@@ -184,7 +194,12 @@ def roundtrip(g, st, recs, lib, ev):
         e['dt'] = [[k, codes(v)] for k, v in tr.tags.items()]
         e['dt_types'] = sorted(set(type(v).__name__ for v in tr.tags.values()))
         try:
-            fq = (str(tr), tr.asFastq(), repr(tr))[base['tid'] % 3]      # the three ways the writer serialises a record
+            if texts is not None:
+                if texts[mate] is None:
+                    raise ValueError('refused inside demultiplex')
+                fq = texts[mate]
+            else:
+                fq = (str(tr), tr.asFastq(), repr(tr))[base['tid'] % 3]      # the three ways the writer serialises a record
             e['header'] = codes(fq.split('\n')[0][1:])
         except ValueError:
             e['refused'] = True
@@ -311,7 +326,8 @@ def main():
     def lib_for_len(st, recs, target):
         """Library name that makes the written header exactly `target` characters long (None if impossible)."""
         try:    # the header length depends on lengths only: probe with qualities every version of the code can encode
-            probe = st.demultiplex([g.FastqRecord(r.header, r.sequence, r.plus, 'E' * len(r.qual)) for r in recs], library='L')
+            kw = {'inherited': True} if type(st).__name__ == 'IlluminaBaseDemultiplexer' else {}
+            probe = st.demultiplex([g.FastqRecord(r.header, r.sequence, r.plus, 'E' * len(r.qual)) for r in recs], library='L', **kw)
             h = ';'.join('%s:%s' % (k, v) for k, v in probe[0].tags.items() if k != 'RP')
         except Exception:
             return None
@@ -328,8 +344,6 @@ def main():
     n_rep = 1 if tier == 'quick' else 30
     phreds = [chr(c) for c in range(33, 127)]
     for st in g.strategies:
-        if type(st).__name__ == 'IlluminaBaseDemultiplexer':
-            continue        # returns FASTQ text (no barcode/UMI tags): covered through the others' first pass
         ok = False
         cases = [('illumina11', 'single'), ('illumina11', 'dual'), ('illumina11', 'int'), ('scmo', 'single')]
         for rep in range(n_rep):
@@ -373,7 +387,7 @@ def main():
 
     # (2c) falsy-but-valid values at both ends of the codec: the whitelist member whose CELL INDEX is 0 (sample = library_0)
     for i, st in enumerate(g.strategies):
-        if st.shortName not in reachable or type(st).__name__ == 'SCCHIC_384w_c8_u3_cs2' or (tier == 'quick' and i % 2):
+        if st.shortName not in reachable or not g.layouts(st) or type(st).__name__ == 'SCCHIC_384w_c8_u3_cs2' or (tier == 'quick' and i % 2):
             continue        # (TCHIC maps the cell index through the celseq2 list, which has no index 0)
         fld = g.fields('single')
         recs, umi, umiq = g.build(st, uniform('!'), 'illumina11', fld, single_end(st), cell='zero')
@@ -387,7 +401,7 @@ def main():
     # (2d) Hamming-corrected barcode and sequencing index (both parsers with expansion 1): raw and corrected values differ
     #      (bc != BC, aa != aA, ah = 1) and both have to come back
     for i, st in enumerate(g.strategies):
-        if st.shortName not in reachable or (tier == 'quick' and i % 2 == 0):
+        if st.shortName not in reachable or not g.layouts(st) or (tier == 'quick' and i % 2 == 0):
             continue
         st1 = g.strategies1[st.shortName]
         for rep in range(1 if tier == 'quick' else 4):
@@ -401,6 +415,17 @@ def main():
             ev0 = blank(st1, 'illumina11', fld, lib, 'corrected', umi, umiq)
             ev0['loader'] = 'k1'
             for e in roundtrip(g, st1, recs, lib, ev0):
+                e['uq'] = ord('F')
+                emit(e)
+
+    # (2e) a sequencing index that is not in the index list (index parser configured): the pair is NOT accepted
+    #      (NonMultiplexable through TaggedRecord.__init__ and the strategies' re-raise arms) - recorded, outside the statement
+    for st in [x for x in g.strategies if x.shortName in reachable][::5]:
+        fld = g.fields('single')
+        fld['idx'] = 'NNNNNNNNNNNN'
+        recs, umi, umiq = g.build(st, uniform('F'), 'illumina11', fld, single_end(st))
+        if recs is not None:
+            for e in roundtrip(g, st, recs, 'lib', blank(st, 'illumina11', fld, 'lib', 'unknownindex', umi, umiq)):
                 e['uq'] = ord('F')
                 emit(e)
 
